@@ -377,14 +377,20 @@ Fixpoint concat_opt (l : list (option str)) : option str :=
   | Some x :: r => option_map (app x) (concat_opt r)
   | None :: _ => None
   end.
+(* one line with its own source column (gff.py:149: quote(gff_meta.get('source', '.')) inside the loop) *)
+Definition write_line_s (seqid type_ : str) (l : loc) (gm : adict) (mfull : adict) : option str :=
+  match qcol k_source mfull with
+  | Some source => write_line seqid source type_ l gm (pop3 mfull)
+  | None => None
+  end.
 Definition write_feat (ft : feat) : option str :=
   let g := merged_gff ft in
   match flocs ft with
   | [] => None          (* cannot happen: LocationTuple is never empty *)
   | l0 :: rest =>
       let m0 := loc_meta g l0 in
-      match qcol k_seqid m0, qcol k_source m0 with
-      | Some seqid, Some source =>
+      match qcol k_seqid m0 with
+      | Some seqid =>
           let t1 := match aget k_type m0 with Some v => if truthy v then Some v else None | None => None end in
           let t2 := match t1 with Some v => Some v
                     | None => match aget k_type (fmeta ft) with Some v => if truthy v then Some v else None | None => None end end in
@@ -394,12 +400,11 @@ Definition write_feat (ft : feat) : option str :=
               let base := pop5 m0 in
               let idv := match aget k_ID g with Some v => v | None => AS random_id end in
               concat_opt
-                (write_line seqid source type_ l0 base (pop3 m0) ::
-                 map (fun l => let m := pop3 (loc_meta g l) in
-                               let gm := filter (fun kv => negb (opt_aval_eqb (aget (fst kv) base) (snd kv))) (pop5 (loc_meta g l)) in
-                               write_line seqid source type_ l (aset k_ID idv gm) m) rest)
+                (write_line_s seqid type_ l0 base m0 ::
+                 map (fun l => let gm := filter (fun kv => negb (opt_aval_eqb (aget (fst kv) base) (snd kv))) (pop5 (loc_meta g l)) in
+                               write_line_s seqid type_ l (aset k_ID idv gm) (loc_meta g l)) rest)
           end
-      | _, _ => None
+      | None => None
       end
   end.
 Definition gff_header : str := bs "##gff-version 3"%bs ++ nl.
@@ -491,7 +496,7 @@ Definition feat_ok (f : feat) : bool :=
 Definition wf_C02 (fts : list feat) : bool := forallb feat_ok fts.
 
 (* property domain beyond faithfulness: the first 5'->3' location carries no attributes of its own
-   (PENDING FIX firstloc_overrides: otherwise one write/read cycle moves them to the feature level, where the
+   (OPEN FINDING F39 firstloc_overrides: otherwise one write/read cycle moves them to the feature level, where the
    other locations inherit the keys they did not have) and neighbouring features are not merged by the reader *)
 Definition normalised (f : feat) : bool :=
   match flocs f with l0 :: _ => match lgff l0 with None => true | Some _ => false end | [] => true end.
@@ -508,12 +513,11 @@ Fixpoint adjacent_distinct (fts : list feat) : bool :=
       negb (match feat_gid a, feat_gid b with Some x, Some y => gid_eqb x y | _, _ => false end) && adjacent_distinct r
   | _ => true
   end.
-(* PENDING FIX loc_source: the writer takes seqid/source/type of every line from the first location, so a location-level
-   'source' (a split feature whose lines name different sources) is dropped. A location-level ID different from the
-   feature's contradicts the re-assembly through the shared ID and is outside the property. *)
+(* the writer takes seqid and type of every line from the first location and re-assembly goes through the shared ID, so
+   location-level seqid / type / ID are outside the property (source is written per line since 3e14524) *)
 Definition loc_no_cols (l : loc) : bool :=
   match lgff l with
-  | Some d => negb (existsb (fun kv => str_eqb (fst kv) k_seqid || str_eqb (fst kv) k_source || str_eqb (fst kv) k_type || str_eqb (fst kv) k_ID) d)
+  | Some d => negb (existsb (fun kv => str_eqb (fst kv) k_seqid || str_eqb (fst kv) k_type || str_eqb (fst kv) k_ID) d)
   | None => true
   end.
 Definition rt_C02 (fts : list feat) : bool :=
@@ -631,6 +635,21 @@ Definition run_C02_text (t : str) : val :=
   match read_gff t with
   | None => VL [VB false; VB false; VE e_value]
   | Some x => cycle_from x
+  end.
+(* op 3: GFF text -> read, then in-memory edits of Feature.meta aliases (ft.name = ..., ft.meta.score = ...), then cycles *)
+Fixpoint apply_edit (fs : list feat) (i : nat) (k : str) (v : aval) : list feat :=
+  match fs, i with
+  | f :: r, O => mkFeat (aset k v (fmeta f)) (fgff f) (flocs f) :: r
+  | f :: r, S j => f :: apply_edit r j k v
+  | [], _ => []
+  end.
+Definition run_C02_edit (t : str) (edits : list (nat * str * aval)) : val :=
+  if negb (all_ascii t) || has x0d t then VL [VB false; VB false; VNone]
+  else
+  match read_gff t with
+  | None => VL [VB false; VB false; VE e_value]
+  | Some x =>
+      cycle_from (fold_left (fun x e => apply_edit x (Nat.modulo (fst (fst e)) (length x)) (snd (fst e)) (snd e)) edits x)
   end.
 (* op 1: abstract features (as given to the Feature constructor) -> write, read, ... *)
 Definition run_C02_obj (x : list feat) : val :=
